@@ -4,7 +4,7 @@
 #   baseline tests pass with it, its demonstration fails with it and passes without, then runs our quick check(s) on it.
 # Results and the artefacts go to /verif/seeded/<id>-<letter>/ . /repo itself is never touched.
 id="$1"; L="$2"; shift 2
-src=/tmp/out_$id
+src=${SEED_SRC:-/tmp/out}_$id
 dst=/verif/seeded/$id-$L
 mkdir -p "$dst"
 d=$(mktemp -d /tmp/seedchk.XXXXXX)
